@@ -297,6 +297,10 @@ def run_check(pid, tier, seed, nworkers=None, runs_override=None):
         all_recs += recs
         per_batch.append({"engine": engine, "flavour": flavour, "cache_size": cache, "runs": len(recs), "wall_s": round(b.wall, 2)})
         log("[%s] batch engine=%s flavour=%s cache=%d runs=%d wall=%.1fs" % (pid, engine, flavour, cache, len(recs), b.wall))
+        if b.hangs >= 2:
+            # runs that never return cost minutes each: what has been seen is reported, the remaining batches are skipped
+            log("[%s] batch cut short after %d runs without progress; remaining batches skipped" % (pid, b.hangs))
+            break
     if infra:
         for e in infra[:5]:
             print("INFRA-ERROR " + e, flush=True)
